@@ -14,6 +14,12 @@ use std::time::Instant;
 
 pub const VERIF_ROOT: &str = "/verif";
 
+/// where evidence/ and replays/ are written: /verif, or $VERIF_OUT when a check is
+/// run against a scratch copy of the repository (seeded-change experiments)
+pub fn out_root() -> String {
+    std::env::var("VERIF_OUT").unwrap_or_else(|_| VERIF_ROOT.to_string())
+}
+
 #[derive(Clone, Copy, Debug, PartialEq, Eq)]
 pub enum Tier {
     Quick,
@@ -215,7 +221,7 @@ impl Report {
         let mut new_viols = 0;
         let mut known = 0;
         let mut lines = vec![];
-        let _ = std::fs::create_dir_all(format!("{VERIF_ROOT}/replays"));
+        let _ = std::fs::create_dir_all(format!("{}/replays", out_root()));
         for v in viols.values() {
             let open = self
                 .findings
@@ -230,7 +236,7 @@ impl Report {
             } else {
                 new_viols += 1;
                 let h = fnv(v.signature.as_bytes());
-                let path = format!("{VERIF_ROOT}/replays/{}-{:016x}.json", self.property, h);
+                let path = format!("{}/replays/{}-{:016x}.json", out_root(), self.property, h);
                 let body = json!({"property": self.property, "signature": v.signature, "what": v.what, "cases": v.count, "replay": v.replay});
                 if let Err(e) = std::fs::write(&path, serde_json::to_string_pretty(&body).unwrap()) {
                     machinery_failure(&format!("cannot write replay {path}: {e}"));
@@ -255,8 +261,8 @@ impl Report {
             "wall_s": self.start.elapsed().as_secs_f64(),
             "violations": new_viols,
         });
-        let _ = std::fs::create_dir_all(format!("{VERIF_ROOT}/evidence"));
-        let path = format!("{VERIF_ROOT}/evidence/{}.json", self.property);
+        let _ = std::fs::create_dir_all(format!("{}/evidence", out_root()));
+        let path = format!("{}/evidence/{}.json", out_root(), self.property);
         if let Err(e) = std::fs::write(&path, serde_json::to_string_pretty(&ev).unwrap() + "\n") {
             machinery_failure(&format!("cannot write evidence {path}: {e}"));
         }
@@ -515,4 +521,113 @@ unsafe impl std::alloc::GlobalAlloc for GuardAlloc {
 pub fn take_enormous_allocation() -> Option<usize> {
     let n = ENORMOUS_SEEN.with(|c| c.replace(0));
     if n > 0 { Some(n) } else { None }
+}
+
+// ---------------------------------------------------------------------------
+// child-process isolation: a sweep whose subject can abort the process (failed
+// enormous allocation, stack overflow) runs its items in worker processes. A
+// worker that dies is charged to the item it was processing (a violation),
+// and a new worker continues after it. Never a machinery failure.
+
+pub struct ChildCtl {
+    pub w: usize,
+    pub nw: usize,
+    pub from: usize,
+    pub out: String,
+}
+
+/// `--child <w> <nw> <from> <outfile>` among the extra arguments
+pub fn child_ctl(args: &Args) -> Option<ChildCtl> {
+    let p = args.extra.iter().position(|a| a == "--child")?;
+    let g = |k: usize| args.extra.get(p + k).cloned().unwrap_or_default();
+    Some(ChildCtl { w: g(1).parse().ok()?, nw: g(2).parse().ok()?, from: g(3).parse().ok()?, out: g(4) })
+}
+
+impl ChildCtl {
+    /// items of this worker, in order
+    pub fn items(&self, n: usize) -> impl Iterator<Item = usize> {
+        (self.from..n).filter(move |i| i % self.nw == self.w)
+    }
+    pub fn mark(&self, item: usize) {
+        let _ = std::fs::write(format!("{}.item", self.out), item.to_string());
+    }
+}
+
+impl Report {
+    /// cumulative state of a worker process
+    pub fn export_to(&self, path: &str) {
+        let viols: Vec<Value> = self.viols.lock().unwrap().values().map(|v| json!({"signature": v.signature, "what": v.what, "replay": v.replay, "count": v.count})).collect();
+        let body = json!({"violations": viols, "coverage": Value::Object(self.coverage.lock().unwrap().clone()), "samples": *self.samples.lock().unwrap()});
+        let tmp = format!("{path}.tmp");
+        if std::fs::write(&tmp, body.to_string()).is_ok() {
+            let _ = std::fs::rename(&tmp, path);
+        }
+    }
+    /// merge a worker's exported state: violation counts and numeric coverage keys are summed
+    pub fn import_from(&self, path: &str) {
+        let Ok(text) = std::fs::read_to_string(path) else { return };
+        let Ok(v) = serde_json::from_str::<Value>(&text) else { return };
+        for x in v["violations"].as_array().cloned().unwrap_or_default() {
+            let n = x["count"].as_u64().unwrap_or(1);
+            let mut m = self.viols.lock().unwrap();
+            let e = m.entry(x["signature"].as_str().unwrap_or("").to_string()).or_insert_with(|| Viol { signature: x["signature"].as_str().unwrap_or("").to_string(), what: x["what"].as_str().unwrap_or("").to_string(), replay: x["replay"].clone(), count: 0 });
+            e.count += n;
+        }
+        if let Some(c) = v["coverage"].as_object() {
+            for (k, val) in c {
+                if let Some(n) = val.as_u64() {
+                    self.add(k, n);
+                }
+            }
+        }
+        for s in v["samples"].as_array().cloned().unwrap_or_default() {
+            self.sample(s);
+        }
+    }
+}
+
+/// Parent side: runs `n` items in worker processes (`current_exe <property> --tier <t> --child ...`).
+/// `on_death(item, status)` must record the violation for the item a worker died on.
+pub fn run_children(args: &Args, n: usize, report: &Report, on_death: &(dyn Fn(usize, String) + Sync)) {
+    let exe = std::env::current_exe().unwrap_or_else(|e| machinery_failure(&format!("current_exe: {e}")));
+    let nw = workers().min(n.max(1));
+    let scratch = Scratch::new("children");
+    std::thread::scope(|s| {
+        for w in 0..nw {
+            let exe = exe.clone();
+            let scratch = &scratch;
+            s.spawn(move || {
+                let mut from = 0usize;
+                let mut round = 0;
+                loop {
+                    round += 1;
+                    let out = scratch.path(&format!("w{w}_{round}.json"));
+                    let st = std::process::Command::new(&exe)
+                        .arg(&args.property)
+                        .args(["--tier", args.tier.as_str(), "--child", &w.to_string(), &nw.to_string(), &from.to_string(), &out])
+                        .stdout(std::process::Stdio::null())
+                        .stderr(std::process::Stdio::null())
+                        .status();
+                    report.import_from(&out);
+                    match st {
+                        Ok(s) if s.success() => break,
+                        Ok(s) => {
+                            let item = std::fs::read_to_string(format!("{out}.item")).ok().and_then(|t| t.trim().parse::<usize>().ok());
+                            match item {
+                                Some(i) => {
+                                    on_death(i, format!("{s}"));
+                                    from = i + 1;
+                                    if from >= n {
+                                        break;
+                                    }
+                                }
+                                None => machinery_failure(&format!("worker process {w} died before its first item: {s}")),
+                            }
+                        }
+                        Err(e) => machinery_failure(&format!("cannot start worker process: {e}")),
+                    }
+                }
+            });
+        }
+    });
 }
